@@ -1,0 +1,25 @@
+//go:build verif
+
+package tokens
+
+// Contracts for gvc (comment-only; compiled only with -tags verif and then adds no code).
+
+//@ func verifyExpiry
+//@   property C20
+//@   ensures expiry: result <==> (atoiOK(t) && now < atoiVal(t))
+//@   assigns nothing
+
+//@ func verifyCaveats
+//@   property C20
+//@   ensures gen-required: err == nil ==> (exists i int :: 0 <= i && i < len(caveats) && isGenCaveat(caveats[i]))
+//@   ensures user-required: err == nil ==> (exists i int :: 0 <= i && i < len(caveats) && userCaveatFor(caveats[i], userID))
+//@   ensures expiry-absolute: err == nil ==> (exists i int :: 0 <= i && i < len(caveats) && timeCaveatValid(caveats[i], nowUnix))
+//@   ensures no-unknown: err == nil ==> (forall i int :: 0 <= i && i < len(caveats) ==> knownCaveat(caveats[i]))
+//@   ensures no-additional: err == nil ==> len(caveats) == 3
+//@   ensures complete: ((forall i int :: 0 <= i && i < len(caveats) ==> knownCaveat(caveats[i])) && (exists i int :: 0 <= i && i < len(caveats) && isGenCaveat(caveats[i])) && (exists i int :: 0 <= i && i < len(caveats) && userCaveatFor(caveats[i], userID)) && (forall i int :: 0 <= i && i < len(caveats) && isTimeCaveat(caveats[i]) ==> timeCaveatValid(caveats[i], nowUnix)) && (exists i int :: 0 <= i && i < len(caveats) && isTimeCaveat(caveats[i])) && (forall i int :: 0 <= i && i < len(caveats) && isUserCaveat(caveats[i]) ==> userCaveatFor(caveats[i], userID))) ==> err == nil
+//@   loop 1: invariant 0 <= idx(1) && idx(1) <= len(caveats) && 0 <= verified && verified < 8
+//@   loop 1: invariant (verified % 2 == 1) <==> (exists j int :: 0 <= j && j < idx(1) && isGenCaveat(caveats[j]))
+//@   loop 1: invariant ((verified / 2) % 2 == 1) <==> (exists j int :: 0 <= j && j < idx(1) && userCaveatFor(caveats[j], userID))
+//@   loop 1: invariant ((verified / 4) % 2 == 1) <==> (exists j int :: 0 <= j && j < idx(1) && timeCaveatValid(caveats[j], now))
+//@   loop 1: invariant forall j int :: 0 <= j && j < idx(1) ==> knownCaveat(caveats[j])
+//@   assigns nothing
